@@ -277,8 +277,9 @@ ApplyLate(mm, ld) == [n \in Names |-> IF ld /\ n \in LateStale THEN Nil ELSE App
 \* end of the round: nothing applied if any request failed; otherwise install, drop, flush; all waiters return.
 \* xf: the cache is rewritten although the round installed nothing (allowed, see ExtraFlush); a failing cache write is then
 \* reported just as it is after an installing round
+\* (a round in which a request has failed is lost anyway: it may end without asking for the remaining secrets)
 PollFinishR(xf, ld) ==
-  /\ poll # Nil /\ poll.todo = {} /\ NoPollReq
+  /\ poll # Nil /\ (poll.todo = {} \/ poll.failed) /\ NoPollReq
   /\ (ld => ~poll.failed /\ LateStale # {})
   /\ LET mn == ApplyLate(m, ld)
          must == mn # m                        \* something was installed or dropped: the cache has to follow (C13)
